@@ -7,7 +7,7 @@ mkdir -p work evidence replays
 (cd harness && RUSTFLAGS="-Awarnings" cargo build --offline --quiet && RUSTFLAGS="-Awarnings" cargo build --offline --quiet --release)
 for m in spec/*.tla spec/mc/*.tla spec/trace/*.tla; do
   [ -f "$m" ] || continue
-  java -DTLA-Library=spec:spec/mc:spec/trace -cp /opt/veriftools/tla/tla2tools.jar:/opt/veriftools/tla/CommunityModules-deps.jar tla2sany.SANY "$m" > work/sany.log 2>&1 || { cat work/sany.log; exit 1; }
+  java -DTLA-Library=spec:spec/mc:spec/trace:/opt/veriftools/tlapm/lib/tlapm/stdlib -cp /opt/veriftools/tla/tla2tools.jar:/opt/veriftools/tla/CommunityModules-deps.jar tla2sany.SANY "$m" > work/sany.log 2>&1 || { cat work/sany.log; exit 1; }
   if grep -q "\*\*\* Errors\|Fatal errors\|Could not parse" work/sany.log; then cat work/sany.log; exit 1; fi
 done
 echo "setup ok"
